@@ -30,7 +30,7 @@ open Py
 
 open Lean in
 /-- `c!"abc"` = the char list `['a','b','c']` (a literal the kernel can evaluate, unlike `"abc".toList`) -/
-macro "c!" s:str : term => do
+macro:max "c!" s:str : term => do
   let cs := s.getString.toList
   let elems := cs.map (fun c => Syntax.mkCharLit c)
   `([$(elems.toArray),*])
@@ -213,18 +213,11 @@ def inferTyp (p : Param) (name : Str) (nullable : Option Bool) (t₀ : Typ) : Ex
       let inner := if contains (u.render ++ [']']) c!"struct" then c!"JSON" else u.firstName
       .ok (nullable, .array (typ2col inner))
     | _ =>
-      match p.itemsType with
-      | some it =>
-        if inTyp2col it then .ok (nullable, .array (typ2col it)) else
-          match t with
-          | .union (.name l) (.name r) =>
-            if contains l ['.'] || contains r ['.'] then .error "AttributeError" else
-            .ok (nullable, .name (if inTyp2col r then typ2col r else typ2col l))
-          | .union _ _ => .error "AttributeError"
-          | _ => .ok (nullable, scalarArg p.xSqlType t.render)
-      | none =>
+      if (match p.itemsType with | some it => inTyp2col it | none => false) then
+        .ok (nullable, .array (typ2col (p.itemsType.getD [])))
+      else
         match t with
-        | .union (.name l) (.name r) =>
+        | .union (.name l) (.name r) =>     -- `_handle_union_of_length_2`: both members must be plain `Name`s
           if contains l ['.'] || contains r ['.'] then .error "AttributeError" else
           .ok (nullable, .name (if inTyp2col r then typ2col r else typ2col l))
         | .union _ _ => .error "AttributeError"
@@ -325,6 +318,8 @@ structure Parsed where
   serverDefault : Option Val := none
   /-- the junk key `None` that positional constants after the name end up under -/
   noneKey : Option Val := none
+  /-- `comment`, left in the dict only when a `doc=` keyword is present as well -/
+  comment : Option Val := none
 deriving DecidableEq, Repr
 
 /-- what `ast.parse(ast.unparse(arg))` gives back: a `Name` whose id is not an identifier becomes something else -/
@@ -418,7 +413,8 @@ def columnToParam (c : ColumnCall) : Except String (Str × Parsed) := do
     | some _, some d => if endsWith name c!"kwargs" then some d else some (d ++ ['.'])
     | _, d => d
   return (name, { typ := typ, xSqlType := raw.xSqlType, doc := doc₃, default := default,
-                  serverDefault := kwGet kws c!"server_default", noneKey := raw.noneKey })
+                  serverDefault := kwGet kws c!"server_default", noneKey := raw.noneKey,
+                  comment := if (kwGet kws c!"doc").isSome then kwGet kws c!"comment" else none })
 
 /-! ## The three emissions and their parsers (columns and table name) -/
 
@@ -431,7 +427,7 @@ deriving DecidableEq, Repr
 structure TableCall where
   tname : Str
   /-- the `Name` passed as second argument (`metadata` / `metadata_obj`) -/
-  meta : Str
+  metaName : Str
   cols : List ColumnCall
 deriving DecidableEq, Repr
 
@@ -465,7 +461,7 @@ def emitCols (includeName force : Bool) (ps : Params) : Except String (List (Str
 def emitTableNamed (ir : IR) (name : Str) (tableName : Option Str) (force : Bool) : Except String (Str × TableCall) := do
   let cols ← emitCols true force ir.params
   let target := if name != c!"config_tbl" || ir.name.isEmpty then name else ir.name
-  pure (target, { tname := setValueStr (tableName.getD name), meta := c!"metadata", cols := cols.map (·.2) })
+  pure (target, { tname := setValueStr (tableName.getD name), metaName := c!"metadata", cols := cols.map (·.2) })
 
 /-- as the command line calls it (`gen`, `exmod`): `sqlalchemy_table(ir, table_name=ir["name"], force_pk_id=force)` -/
 def emitTable (force : Bool) (ir : IR) : Except String (Str × TableCall) :=
@@ -513,7 +509,7 @@ def classToTable (cls : ClassDef) : Except String (Sum (Str × TableCall) TableC
         let cols ← rest.mapM (fun s => match s with
           | .assignCol t c => pure (mergeName t c)
           | _ => throw "AttributeError")        -- `assign.value.args` of a constant / junk
-        pure (.inr { tname := setValueStr nm, meta := c!"metadata_obj", cols := cols }))
+        pure (.inr { tname := setValueStr nm, metaName := c!"metadata_obj", cols := cols }))
     | some _ => .error "unmodelled"
     | none => .error "StopIteration"
 
